@@ -774,7 +774,12 @@ static void DecodeNorm(Word Index) {
             BAsmCode[0] = Lo(pOrder->Codes[AdrResult.ErgMode]);
             memcpy(BAsmCode + 1, AdrResult.AdrVals, AdrResult.AdrCnt);
             CodeLen = AdrResult.AdrCnt + 1;
-            if ((AdrResult.ErgMode == ModInd16) && (MomCPU != CPU65C02)
+            /* JMP (xxFF) fetches the vector's high byte from the same page
+               on the NMOS parts; the 65C02 family (65SC02, R65C02, W65C02S)
+               increments the page correctly: */
+
+            if ((AdrResult.ErgMode == ModInd16) && (MomCPU != CPU65SC02)
+                && (MomCPU != CPU65C02) && (MomCPU != CPUW65C02S)
                 && (BAsmCode[1] == 0xff)) {
                 WrError(ErrNum_NotOnThisAddress);
                 CodeLen = 0;
